@@ -189,7 +189,64 @@ def task_vars(t):
                     rec('copy_vars-broken:' + e.what, e.what, case)
                 except Exception as e:  # noqa
                     rec('copy_vars-exception:' + type(e).__name__, 'raised %r' % (e,), case)
-    rep.sample(dict(kind='copy_vars', orders='all', prefixes='0..n'))
+    # every target that already holds variables: every arrangement of every subset of the
+    # source's names and one foreign name. A call that returns must have reproduced names
+    # and levels (and moved nothing the target had); where that is possible by plain
+    # declaration in the source's level order it must succeed.
+    import itertools as _it
+    pool = tuple(names) + ('q_' + names[0],)
+    targets = [p_ for k in range(len(pool) + 1) for p_ in _it.permutations(pool, k)]
+    for order in sweep.orders(names):
+        for tg in targets:
+            for auto in (False, True):
+                before = {v: i for i, v in enumerate(tg)}
+                case = dict(task=t, order=sweep.order_str(order), target=list(tg), autoref=auto)
+                raised = None
+                try:
+                    if auto:
+                        s_ = S.new_autoref(order)
+                        d = S.new_autoref(dict(before))
+                        call = _autoref.copy_vars
+                    else:
+                        s_ = S.new_bdd(order)
+                        d = S.new_bdd(dict(before))
+                        call = _copy.copy_vars
+                    try:
+                        call(s_, d)
+                    except Exception as e:  # noqa
+                        raised = type(e).__name__
+                        del e
+                    rep.add('evaluations')
+                    rep.add('nontrivial')
+                    compatible = all(
+                        before.get(v, l) == l and (v in before or l not in before.values())
+                        for v, l in order.items())
+                    union = dict(before, **order)
+                    contiguous = sorted(union.values()) == list(range(len(union)))
+                    if raised is None:
+                        rep.add('partial_targets_accepted')
+                        if any(d.vars.get(v) != l for v, l in order.items()):
+                            rec('copy_vars-partial',
+                                'copy_vars returned although names and levels are not those '
+                                'of the source', case, got=dict(d.vars))
+                        elif any(d.vars.get(v) != l for v, l in before.items()):
+                            rec('copy_vars-moved',
+                                'copy_vars moved a variable the target already had', case,
+                                got=dict(d.vars))
+                    else:
+                        rep.add('partial_targets_refused')
+                        if compatible and contiguous and set(before) <= set(order) and all(
+                                before[v] == order[v] for v in before) and sorted(
+                                before.values()) == list(range(len(before))) and raised:
+                            # the target is a prefix-compatible part of the source order
+                            if all(order[v] < len(before) for v in before):
+                                rec('copy_vars-refused',
+                                    'copy_vars refused a target that is a prefix of the source '
+                                    'order', case, exception=raised)
+                except Violation as e:
+                    rec('copy_vars-broken:' + e.what, e.what, case)
+    rep.sample(dict(kind='copy_vars', orders='all', prefixes='0..n',
+                    targets='every arrangement of every subset of the names + 1 foreign name'))
     return rep
 
 
